@@ -10,6 +10,11 @@ ALPH = list(" \t\n\\*_`[]()<>!#-+=~|:.\"'&;^$1234567890aZbxyhtps/@{}é　 \x0b\x
 def collect_patterns(md=None):
     """name -> (pattern string, flags)"""
     import mistune
+    # plugin modules are imported lazily by mistune (`import_plugin`): load them all so that their module-level
+    # patterns are collected whatever configuration was built before
+    import importlib
+    for _p in ("abbr", "def_list", "footnotes", "table", "task_lists"):
+        importlib.import_module("mistune.plugins." + _p)
     pats = {}
     for name, mod in sorted(sys.modules.items()):
         if not (name == "mistune" or name.startswith("mistune.")):
